@@ -192,8 +192,10 @@ def monitors(rep, rng, runq, todo, f, data, comps, grids, expansions, normalize,
         t = runq.add(f"mclose {C.qlit(1e-8 * sc)} (inverse_model {E[p].shape[1]}%nat {C.qlist(mu)} {C.qlit(s)} {C.qmat(E[p])} "
                      f"{C.qmat(sc_rand)}) {C.qmat(R)}")
         todo.append((t, f"inverse_transform component {p} = mean + sqrt(w_p) * scores . eigenfunctions on its own grid", key, opts, replay_d, None))
-        if R.shape[1] != len(grids[p]):
-            bad.append(f"reconstruction of component {p} is not on that component's grid")
+        rg = np.asarray(rec.data[p].argvals["input_dim_0"], float)
+        if R.shape[1] != len(grids[p]) or rg.shape != np.shape(grids[p]) or not np.array_equal(rg, np.asarray(grids[p], float)):
+            bad.append(f"reconstruction of component {p} is not on that component's grid (sampling points "
+                       f"[{rg[0]:.4g} .. {rg[-1]:.4g}] instead of [{grids[p][0]:.4g} .. {grids[p][-1]:.4g}])")
     # history: an MFPCA object first fitted on OTHER data (the components in reverse order: other grids and sizes per
     # position) and then on this dataset gives exactly what a fresh object gives
     P = len(comps)
